@@ -181,8 +181,8 @@ def choose_one(rng, H, sh, profile):
         if rng.random() < 0.2:
             s['topup'] = rng.choice([1, 1, 2, 3])
         return s
-    w((3, lambda: topup(insub({'op': 'RS', 'data': sh.data(rng, rng.choice([0, 1])), 'n': rng.choice([1, 1, 2, 3, 2 ** 31 - 1] + ([0] if rng.random() < 0.1 else [])), 'sub': rng.random() < 0.85}))))
-    w((3, lambda: insub({'op': 'RC', 'data': sh.data(rng, 1), 'n': rng.choice([1, 2, 3, 2 ** 31 - 1]), 'pub': rng.random() < 0.7, 'sub': rng.random() < 0.85})))
+    w((3, lambda: topup(insub({'op': 'RS', 'data': sh.data(rng, rng.choice([0, 1])), 'n': rng.choice([1, 1, 2, 3, 2 ** 31 - 1] + ([0] if rng.random() < 0.1 else []) + ([2 ** 31] if rng.random() < 0.15 else [])), 'sub': rng.random() < 0.85}))))
+    w((3, lambda: insub({'op': 'RC', 'data': sh.data(rng, 1), 'n': rng.choice([1, 2, 3, 2 ** 31 - 1] + ([2 ** 31] if rng.random() < 0.15 else [])), 'pub': rng.random() < 0.7, 'sub': rng.random() < 0.85})))
     for oid, i in sh.info.items():
         k = i['kind']
         if k in ('stReq', 'chReq'):
